@@ -52,4 +52,26 @@ def parseERecord (s : String) : Option ERecord :=
 def parseERecords (s : String) : Option (List ERecord) :=
   if s == "-" then some [] else (s.splitOn "/").mapM parseERecord
 
+/-! decoded records (what the decoder yields) in the same syntax -/
+def parseOptStr (s : String) : Option (Option Str) :=
+  if s == "n" then some none
+  else if s.startsWith "t" then (parseCps (s.drop 1).toString).map some
+  else none
+
+def parseOptStrs (s : String) : Option (List (Option Str)) :=
+  if s.isEmpty then some [] else (s.splitOn ",").mapM parseOptStr
+
+def parseField (s : String) : Option Field :=
+  if s.startsWith "c(" && s.endsWith ")" then (parseOptStrs ((s.drop 2).dropEnd 1).toString).map .comp
+  else if s.startsWith "r(" && s.endsWith ")" then
+    let inner := ((s.drop 2).dropEnd 1).toString
+    if inner.isEmpty then some (.rep []) else ((inner.splitOn ";").mapM parseOptStrs).map .rep
+  else match parseOptStr s with
+    | some none => some .null
+    | some (some t) => some (.text t)
+    | none => none
+
+def parseRecord (s : String) : Option Record :=
+  if s == "e" then some [] else (s.splitOn "|").mapM parseField
+
 end Astm.Wire
